@@ -131,10 +131,15 @@ def Quiescent (s : Sys) : Prop := ∀ t, s.pc t = .idle ∨ s.pc t = .holding
 /-- The source-order list of shared-memory operations the model has a step for; compared with the
     list regenerated from the dependency's source (`KG.Gen.C05`). -/
 def tryAcquireOps : List String :=
-  ["atomic.LoadInt64 count", "atomic.LoadUint32 max", "atomic.CompareAndSwapInt64 count", "atomic.AddInt64 count",
-   "atomic.AddInt64 count"]
-def releaseOps : List String := ["read count", "atomic.AddInt64 count", "atomic.StoreInt64 count"]
-def resizeOps : List String := ["read max", "atomic.StoreUint32 max"]
+  ["atomic.LoadInt64 count", "atomic.LoadUint32 max", "atomic.CompareAndSwapInt64 count count 1",
+   "atomic.AddInt64 count 1", "atomic.AddInt64 count -1"]
+def releaseOps : List String := ["read count", "atomic.AddInt64 count -1", "atomic.StoreInt64 count 0"]
+def resizeOps : List String := ["read max", "atomic.StoreUint32 max n"]
+/-- `flowcontrol.NewFlowControl` builds the limiter of a `MaxRequestsInflight` schema with `maxinflight.New`,
+    which is the atomic implementation modelled here. -/
+def counterCtor : List String :=
+  ["maxinflight.New(uint32(schema.MaxRequestsInflight.Max))", "New=return newBucket(Atomic, size)",
+   "Atomic:return newAtomic(size)", "newAtomic=&atomicTokenBucket"]
 
 /-! ## The same code under sequential use (what layer (b) composes) -/
 
